@@ -1,4 +1,6 @@
 import LoguruModel.Format.Model
+import LoguruModel.Format.LogCall
+import LoguruModel.Format.Handler
 import LoguruModel.Driver
 open Py Py.Fmt Format
 
@@ -86,6 +88,35 @@ def step (line : String) : String :=
        | .error e => (if dyn then "err " else "adderr ") ++ toString e
        | .ok f => showRes (emitText (symEnv 0 kw false) raw dyn col true f m))
     | _, _, _, _, _, _ => "bad-op"
+  | ["call", flags, n, kw, fails, so, t] =>
+    -- one logging call up to record["message"]: flags = lazy capture record colors; arguments `@i`, keywords by
+    -- name (value = name); `fails` = the lazy arguments whose call raises KeyError; `so` = str(message)
+    match flags.toList.map (· == '1'), n.toNat?, decKw kw, decKw fails, decTok so, decTok t with
+    | [lz, cp, rc, cl], some n, some kw, some fails, some so, some t =>
+      let o : LogOpts := { lazy := lz, capture := cp, record := rc, colors := cl }
+      let args := (List.range n).map (fun i => '@' :: natStr i)
+      let force : Str → Except Err Str := fun v => if fails.contains v then .error .keyError else .ok v
+      (match logCall mkD (symEnv 0 [] true) o force "record".toList t so args (kw.map (fun k => (k, k))) with
+       | .error e => "err " ++ toString e
+       | .ok (m, s) => "ok " ++ encTok m ++ " " ++ String.intercalate "," ("=" :: s.extraUpd.map (fun p => encTok p.1)) ++
+           " " ++ String.intercalate "," ("=" :: s.forced.map encTok))
+    | _, _, _, _, _, _ => "bad-op"
+  | "dyn" :: kw :: ts =>
+    -- a history of records through ONE dynamic-format handler (colorize=False); one template per record
+    match decKw kw, ts.mapM decTok with
+    | some kw, some ts =>
+      String.intercalate " " ("dyn" :: (dynRun mkD (ts.map (fun t => (symEnv 0 kw false, t))) []).map
+        (fun r => match r with | .ok x => "ok:" ++ encTok x | .error e => "err:" ++ toString e))
+    | _, _ => "bad-op"
+  | ["efull", raw, dyn, col, given, differs] =>
+    -- which text `emit` hands to the sink: M = record["message"], C = the coloured message, F = format_map
+    match bool? raw, bool? dyn, bool? col, bool? given, bool? differs with
+    | some raw, some dyn, some col, some given, some differs =>
+      let cm : Option ColoredMsg := if given then some ⟨(if differs then ['X'] else ['M']), ['C']⟩ else none
+      (match emitFull (symEnv 0 [] false) ['M'] cm raw dyn col ['F'] with
+       | .ok x => String.ofList x
+       | .error e => "err " ++ toString e)
+    | _, _, _, _, _ => "bad-op"
   | _ => "bad-op"
 
 def main : IO Unit := driverLoop step
